@@ -161,6 +161,17 @@ Lemma transition_spec : forall cx s ip r c al aof p,
    s' = tcp_set_state (upd_listen_endpoint (tcp_reset s) (s_listen_endpoint s)) Listen).
 Proof.
   intros cx s ip r c al aof p H Hc. unfold tcp_process_transition in H. cbv zeta.
+  assert (Hm : s_tx_buffer (tcp_apply_mss s r) = s_tx_buffer s /\
+               s_remote_win_len (tcp_apply_mss s r) = s_remote_win_len s /\
+               s_remote_win_shift (tcp_apply_mss s r) = s_remote_win_shift s /\
+               s_local_seq_no (tcp_apply_mss s r) = s_local_seq_no s /\
+               s_remote_last_seq (tcp_apply_mss s r) = s_remote_last_seq s /\
+               s_syn_unacked_in_fin_wait (tcp_apply_mss s r) = s_syn_unacked_in_fin_wait s /\
+               s_timer (tcp_apply_mss s r) = s_timer s)
+    by (unfold tcp_apply_mss; destruct (r_max_seg_size r) as [m|]; [destruct (m =? 0)|]; fld;
+        repeat split; reflexivity).
+  destruct Hm as (M1 & M2 & M3 & M4 & M5 & M6 & M7).
+  revert M1 M2 M3 M4 M5 M6 M7 H. generalize (tcp_apply_mss s r). intros sm M1 M2 M3 M4 M5 M6 M7 H.
   destruct (s_state s) eqn:Est, c; try congruence;
   repeat match type of H with
   | context [if ?b then _ else _] => destruct b eqn:?
@@ -177,16 +188,7 @@ Proof.
   try (do 4 right; repeat split; reflexivity).
   all: repeat match goal with H : is_some (s_remote_win_scale _) = _ |- _ => fld_in H; fld; rewrite H
                             | H : is_some (r_ack_number _) = _ |- _ => fld_in H; fld; rewrite ?H end;
-       assert (Hm : s_tx_buffer (tcp_apply_mss s r) = s_tx_buffer s /\
-                    s_remote_win_len (tcp_apply_mss s r) = s_remote_win_len s /\
-                    s_remote_win_shift (tcp_apply_mss s r) = s_remote_win_shift s /\
-                    s_local_seq_no (tcp_apply_mss s r) = s_local_seq_no s /\
-                    s_remote_last_seq (tcp_apply_mss s r) = s_remote_last_seq s /\
-                    s_syn_unacked_in_fin_wait (tcp_apply_mss s r) = s_syn_unacked_in_fin_wait s /\
-                    s_timer (tcp_apply_mss s r) = s_timer s)
-         by (unfold tcp_apply_mss; destruct (r_max_seg_size r) as [m|]; [destruct (m =? 0)|]; fld;
-             repeat split; reflexivity);
-       destruct Hm as (M1 & M2 & M3 & M4 & M5 & M6 & M7); fld; rewrite ?M1, ?M2, ?M3, ?M4, ?M5, ?M6, ?M7;
+       fld; rewrite ?M1, ?M2, ?M3, ?M4, ?M5, ?M6, ?M7;
        right; right; first [left; repeat split; reflexivity | right; left; repeat split; reflexivity].
 Qed.
 
